@@ -295,6 +295,7 @@ pub fn run_check(prop: &str, tier: &str) -> i32 {
             let n = crate::names::check_names(&rep);
             run_seq_phases_with(&rep, seq_phases(prop, tier), json!({"file_name_offsets_checked": n}))
         }
+        "C03" | "C05" | "C04" | "C07" | "C08" => run_sched_check(prop, tier),
         "C09" | "C10" => {
             let rep = Reporter::new(prop, tier);
             let cov = if prop == "C09" {
@@ -416,10 +417,368 @@ pub fn selftest() -> i32 {
         n += 1;
     }
     println!("selftest: encoder agreement on {} records", n);
+    // 3. explorer: independent steps -> 1 execution; dependent -> C(2n,n); lost update found
+    let (c, b, _) = crate::sched::toy_explore(3, false, false);
+    println!("selftest: 2 threads x 3 independent steps: {} complete, {} sleep-blocked executions", c, b);
+    if c != 1 {
+        println!("SELFTEST-FAIL: expected exactly 1 complete execution");
+        ok = false;
+    }
+    let (c, b, _) = crate::sched::toy_explore(3, true, false);
+    println!("selftest: 2 threads x 3 dependent steps: {} complete, {} sleep-blocked executions", c, b);
+    if c != 20 {
+        println!("SELFTEST-FAIL: expected C(6,3)=20 complete executions");
+        ok = false;
+    }
+    let (c, _, lost) = crate::sched::toy_explore(1, true, true);
+    println!("selftest: lost-update toy: {} executions, {} with a lost update", c, lost);
+    if lost == 0 {
+        println!("SELFTEST-FAIL: the seeded lost update was not found");
+        ok = false;
+    }
     if ok {
         println!("selftest: ok");
         0
     } else {
         2
     }
+}
+
+// ---------------------------------------------------------------------------
+// schedx checks
+// ---------------------------------------------------------------------------
+
+use crate::sched::FaultPolicy;
+use crate::schedx;
+use crate::schedx::HistSpec;
+use crate::schedx::SOp;
+use crate::schedx::Sym;
+
+fn base_spec(prop: &str, hist: Vec<SOp>, cfg: Cfg) -> HistSpec {
+    HistSpec {
+        prop: prop.to_string(),
+        hist,
+        cfg,
+        crash: false,
+        every_byte_newest: false,
+        max_faults: 0,
+        fault_policy: FaultPolicy::None,
+        o_c03: false,
+        o_c04: false,
+        o_c05: false,
+        o_c07: false,
+        o_c08: false,
+        o_c15: false,
+        max_executions: 200_000,
+    }
+}
+
+fn has(syms: &[Sym], s: Sym) -> bool {
+    syms.contains(&s)
+}
+
+/// The list of (history, configuration, oracle) work items of a schedx check.
+pub fn sched_specs(prop: &str, tier: &str) -> Vec<HistSpec> {
+    let thorough = tier == "thorough";
+    let mut out = vec![];
+    match prop {
+        "C03" | "C05" => {
+            let alpha = [Sym::A, Sym::V, Sym::F, Sym::W, Sym::T, Sym::Pfirst, Sym::Alow, Sym::C, Sym::U];
+            let max_len = if thorough { 5 } else { 3 };
+            for len in 1..=max_len {
+                // rotation at every write multiplies the schedules: short histories only
+                let cfgs: Vec<Cfg> = if len <= 2 || (thorough && len <= 3) { vec![Cfg::records(2), Cfg::records(3)] } else { vec![Cfg::records(3)] };
+                let keep = |syms: &[Sym], _ops: &[SOp]| -> bool {
+                    // a trailing wait adds nothing; longer histories must contain a flush
+                    if syms.last() == Some(&Sym::W) && len < 3 {
+                        return false;
+                    }
+                    if len >= 4 && !has(syms, Sym::F) {
+                        return false;
+                    }
+                    if len >= 5 && !(has(syms, Sym::W) && has(syms, Sym::A)) {
+                        return false;
+                    }
+                    true
+                };
+                for h in schedx::histories(&alpha, len, &keep) {
+                    for c in &cfgs {
+                        let mut s = base_spec(prop, h.clone(), *c);
+                        s.crash = true;
+                        s.o_c03 = prop == "C03";
+                        s.o_c05 = prop == "C05";
+                        s.every_byte_newest = thorough;
+                        out.push(s);
+                    }
+                }
+            }
+            // fixed longer shapes: flushes straddling rotations, acknowledged prefix then more writes
+            let shapes: Vec<Vec<Sym>> = vec![
+                vec![Sym::A, Sym::A, Sym::F, Sym::W, Sym::A, Sym::A],
+                vec![Sym::A, Sym::F, Sym::A, Sym::F, Sym::W, Sym::W],
+                vec![Sym::V, Sym::A, Sym::F, Sym::W, Sym::T, Sym::Alow, Sym::F],
+                vec![Sym::A, Sym::A, Sym::Pfirst, Sym::F, Sym::W, Sym::A],
+                vec![Sym::A, Sym::U, Sym::F, Sym::W, Sym::C, Sym::F],
+            ];
+            for sh in shapes {
+                let mut s = base_spec(prop, schedx::from_syms(&sh), Cfg::records(3));
+                s.crash = true;
+                s.o_c03 = prop == "C03";
+                s.o_c05 = prop == "C05";
+                out.push(s);
+            }
+        }
+        "C04" => {
+            let alpha = [Sym::A, Sym::F, Sym::W, Sym::Abig, Sym::T, Sym::Pfirst];
+            let max_len = if thorough { 5 } else { 3 };
+            for len in 1..=max_len {
+                let keep = |syms: &[Sym], _ops: &[SOp]| -> bool {
+                    has(syms, Sym::F) && (has(syms, Sym::A) || has(syms, Sym::Abig)) && (len < 4 || syms.iter().filter(|s| **s == Sym::F).count() >= 2 || has(syms, Sym::W))
+                };
+                for h in schedx::histories(&alpha, len, &keep) {
+                    let cfgs: Vec<Cfg> = if len <= 3 { vec![Cfg::records(2), Cfg::records(3)] } else { vec![Cfg::records(3)] };
+                    for c in &cfgs {
+                        // no fault: exactly-once, order, durability at every ack
+                        let mut s0 = base_spec(prop, h.clone(), *c);
+                        s0.o_c04 = true;
+                        out.push(s0);
+                        // faults of any kind (EIO, EINTR, short write) at any worker write/fdatasync
+                        let mut s1 = base_spec(prop, h.clone(), *c);
+                        s1.o_c04 = true;
+                        s1.max_faults = if thorough && len <= 3 { 2 } else { 1 };
+                        s1.fault_policy = FaultPolicy::WorkerAll;
+                        if thorough || len <= 2 {
+                            out.push(s1);
+                        }
+                        // repeated fdatasync failures (the same file can fail twice)
+                        if thorough && len <= 4 {
+                            let mut s2 = base_spec(prop, h.clone(), *c);
+                            s2.o_c04 = true;
+                            s2.max_faults = if len <= 3 { 3 } else { 2 };
+                            s2.fault_policy = FaultPolicy::WorkerSyncEio;
+                            out.push(s2);
+                        }
+                    }
+                }
+            }
+            // quick tier: every pair of fdatasync failures on the shapes in which one
+            // file can fail twice (once as the newest file, again as an older file)
+            if !thorough {
+                let shapes: Vec<Vec<Sym>> = vec![
+                    vec![Sym::A, Sym::F, Sym::F],
+                    vec![Sym::A, Sym::F, Sym::W, Sym::F],
+                    vec![Sym::A, Sym::A, Sym::F, Sym::F],
+                    vec![Sym::A, Sym::F, Sym::A, Sym::F],
+                ];
+                for sh in shapes {
+                    for c in [Cfg::records(2), Cfg::records(3)] {
+                        // two rotations x two faults: thorough tier only
+                        if c.max_records == Some(2) && sh.iter().filter(|x| **x == Sym::A).count() >= 2 {
+                            continue;
+                        }
+                        let mut s2 = base_spec(prop, schedx::from_syms(&sh), c);
+                        s2.o_c04 = true;
+                        s2.max_faults = 2;
+                        s2.fault_policy = FaultPolicy::WorkerSyncEio;
+                        out.push(s2);
+                    }
+                }
+            }
+        }
+        "C07" => {
+            let alpha = [Sym::A, Sym::Aup, Sym::Alow, Sym::T, Sym::F, Sym::W, Sym::I, Sym::R, Sym::E, Sym::Pfirst];
+            let caches: Vec<(Option<usize>, Option<usize>)> = vec![(Some(0), None), (Some(1), None), (None, Some(5)), (Some(2), Some(0))];
+            let max_len = if thorough { 6 } else { 4 };
+            for len in 2..=max_len {
+                let keep = |syms: &[Sym], _ops: &[SOp]| -> bool {
+                    syms.last() == Some(&Sym::R) && (has(syms, Sym::A) || has(syms, Sym::Aup)) && (len < 4 || has(syms, Sym::F))
+                };
+                for h in schedx::histories(&alpha, len, &keep) {
+                    for (ci, (items, cap)) in caches.iter().enumerate() {
+                        // all cache limits for short histories, two for longer ones
+                        if len >= 4 && ci >= 1 && !thorough {
+                            continue;
+                        }
+                        for rec in [2usize, 3] {
+                            if rec == 2 && len > 3 {
+                                continue;
+                            }
+                            let mut s = base_spec(prop, h.clone(), Cfg::records(rec).with_cache(*items, *cap));
+                            s.o_c07 = true;
+                            out.push(s);
+                        }
+                    }
+                }
+            }
+            // the family that puts a re-appended entry below the eviction boundary
+            let fam: Vec<Vec<Sym>> = vec![
+                vec![Sym::A, Sym::Aup, Sym::F, Sym::W, Sym::T, Sym::Alow, Sym::R],
+                vec![Sym::A, Sym::Aup, Sym::A, Sym::F, Sym::W, Sym::T, Sym::T, Sym::Alow, Sym::R],
+                vec![Sym::A, Sym::Aup, Sym::F, Sym::W, Sym::I, Sym::T, Sym::Alow, Sym::E, Sym::R],
+                vec![Sym::A, Sym::A, Sym::A, Sym::F, Sym::W, Sym::I, Sym::E, Sym::R, Sym::A, Sym::R],
+            ];
+            for f in fam {
+                for (items, cap) in &caches {
+                    let mut s = base_spec(prop, schedx::from_syms(&f), Cfg::records(3).with_cache(*items, *cap));
+                    s.o_c07 = true;
+                    out.push(s);
+                }
+            }
+        }
+        "C08" => {
+            let alpha = [Sym::A, Sym::Pfirst, Sym::F, Sym::W, Sym::Plast, Sym::Pbeyond, Sym::T, Sym::Alow, Sym::I];
+            let max_len = if thorough { 5 } else { 3 };
+            for len in 2..=max_len {
+                let keep = |syms: &[Sym], _ops: &[SOp]| -> bool {
+                    let purge_pos = syms.iter().position(|s| matches!(s, Sym::Pfirst | Sym::Plast | Sym::Pbeyond));
+                    let Some(pp) = purge_pos else { return false };
+                    // a flush after the purge makes the removal due
+                    syms[pp..].contains(&Sym::F) && (len < 5 || has(syms, Sym::A))
+                };
+                for h in schedx::histories(&alpha, len, &keep) {
+                    let cfgs: Vec<Cfg> = if len <= 3 { vec![Cfg::records(2), Cfg::records(3)] } else { vec![Cfg::records(2)] };
+                    for c in &cfgs {
+                        let mut s = base_spec(prop, h.clone(), *c);
+                        s.o_c08 = true;
+                        s.crash = true;
+                        s.o_c03 = true;
+                        out.push(s);
+                        let mut f = base_spec(prop, h.clone(), *c);
+                        f.o_c08 = true;
+                        f.max_faults = if thorough && len <= 3 { 2 } else { 1 };
+                        f.fault_policy = FaultPolicy::WorkerEio;
+                        if thorough || len <= 2 || (len == 3 && c.max_records == Some(2) && h.iter().filter(|o| matches!(o, SOp::Flush)).count() == 1) {
+                            out.push(f);
+                        }
+                    }
+                }
+            }
+        }
+        _ => {}
+    }
+    out
+}
+
+pub fn sched_shard(prop: &str, tier: &str, shard: usize, of: usize) -> i32 {
+    let specs = sched_specs(prop, tier);
+    let mut stats = schedx::SchedStats::default();
+    let mut vios: Vec<crate::report::Violation> = vec![];
+    let mut machinery: Option<String> = None;
+    let mut samples: Vec<Value> = vec![];
+    let budget_s: u64 = std::env::var("VX_SHARD_WALL_S").ok().and_then(|s| s.parse().ok()).unwrap_or(if tier == "thorough" { 3000 } else { 45 });
+    let deadline = std::time::Instant::now() + Duration::from_secs(budget_s);
+    let mut skipped = 0u64;
+    for (i, s) in specs.iter().enumerate() {
+        if i % of != shard {
+            continue;
+        }
+        if std::time::Instant::now() > deadline {
+            skipped += 1;
+            continue;
+        }
+        let before = stats.executions;
+        match schedx::explore_history(s, &mut vios, &mut stats, deadline) {
+            Ok(()) => {}
+            Err(schedx::Machinery(m)) => {
+                machinery = Some(m);
+                break;
+            }
+        }
+        if std::env::var("VX_SHARD_VERBOSE").is_ok() {
+            eprintln!("ITEM {} execs={} faults={:?}/{} cfg={} hist=[{}]", i, stats.executions - before, s.fault_policy, s.max_faults, s.cfg.short(), schedx::shist_short(&s.hist));
+        }
+        if samples.len() < 3 {
+            samples.push(json!({"history": schedx::shist_short(&s.hist), "cfg": s.cfg.short(), "executions": stats.executions - before}));
+        }
+        // keep the report small: one representative per key and shard
+        let mut seen = std::collections::BTreeSet::new();
+        vios.retain(|v| seen.insert((v.key.clone(), v.what.len() / 64)));
+    }
+    let out = json!({
+        "stats": stats.to_json(),
+        "vios": vios.iter().map(|v| json!({"prop": v.prop, "key": v.key, "what": v.what, "replay": v.replay})).collect::<Vec<_>>(),
+        "machinery": machinery,
+        "samples": samples,
+        "skipped_histories": skipped,
+        "work_items": specs.len(),
+    });
+    println!("{}", out);
+    0
+}
+
+fn run_sched_check(prop: &str, tier: &str) -> i32 {
+    let rep = Reporter::new(prop, tier);
+    let n = std::thread::available_parallelism().map(|n| n.get()).unwrap_or(8);
+    let exe = std::env::current_exe().unwrap();
+    let children: Vec<std::process::Child> = (0..n)
+        .map(|i| {
+            std::process::Command::new(&exe)
+                .args(["schedx-shard", prop, tier, &i.to_string(), &n.to_string()])
+                .stdout(std::process::Stdio::piped())
+                .spawn()
+                .expect("spawn shard")
+        })
+        .collect();
+    let mut stats = schedx::SchedStats::default();
+    let mut machinery: Option<String> = None;
+    let mut samples: Vec<Value> = vec![];
+    let mut skipped = 0u64;
+    let mut items = 0u64;
+    for c in children {
+        let o = c.wait_with_output().expect("shard output");
+        let text = String::from_utf8_lossy(&o.stdout);
+        let line = text.lines().last().unwrap_or("");
+        match serde_json::from_str::<Value>(line) {
+            Ok(v) => {
+                stats.add_json(&v["stats"]);
+                for x in v["vios"].as_array().cloned().unwrap_or_default() {
+                    rep.report(crate::report::Violation {
+                        prop: x["prop"].as_str().unwrap_or(prop).to_string(),
+                        key: x["key"].as_str().unwrap_or("").to_string(),
+                        what: x["what"].as_str().unwrap_or("").to_string(),
+                        replay: x["replay"].clone(),
+                    });
+                }
+                if let Some(m) = v["machinery"].as_str() {
+                    machinery = Some(m.to_string());
+                }
+                for s in v["samples"].as_array().cloned().unwrap_or_default() {
+                    if samples.len() < 5 {
+                        samples.push(s);
+                    }
+                }
+                skipped += v["skipped_histories"].as_u64().unwrap_or(0);
+                items = v["work_items"].as_u64().unwrap_or(0);
+            }
+            Err(_) => machinery = Some(format!("shard died or produced no result (status {:?})", o.status)),
+        }
+    }
+    if samples.is_empty() {
+        samples.push(json!("(no history explored)"));
+    }
+    let cov = json!({
+        "states": (stats.distinct_states.max(stats.scheduler_states)).max(1),
+        "transitions": stats.steps.max(1),
+        "traces_validated_against_impl": stats.executions,
+        "samples": samples,
+        "exhaustive": stats.caps_hit == 0 && skipped == 0 && stats.image_cap_hit == 0,
+        "work_items_history_x_config": items,
+        "histories_skipped_by_wall_cap": skipped,
+        "detail": stats.to_json(),
+        "explanation": "stateless DFS over all schedules of the real caller thread + real FlushWorker thread under a controlled scheduler (gates at every channel/cache/ack/done access and every file-system call; sleep-set reduction), for every history of the listed alphabet/length; where enabled, fault variants at worker write/fdatasync (deviation-bounded) and, at every scheduler state, every post-crash image of the crash model recovered by the real RaftLog::open. 'states' = scheduler states visited, 'transitions' = scheduler steps executed, 'traces_validated_against_impl' = complete executions of the real code.",
+    });
+    let code = rep.finish(
+        "model_checking",
+        cov,
+        vec![
+            "scheduling points: verif-hooks gates + interposed libc file-system calls; sequential consistency; no unsafe in the crate (checked by selftest)".into(),
+            "crash model: process crash keeps completed calls (+ any prefix of a write in flight); power loss cuts each file anywhere at or above its last successfully synced length or zero-fills it from a record boundary; create/unlink/truncate durable on return".into(),
+            "types fixed to VT; histories bounded in length over a state-relative alphabet".into(),
+        ],
+    );
+    if let Some(m) = machinery {
+        println!("MACHINERY-FAILURE: {}", m);
+        return 2;
+    }
+    code
 }
